@@ -303,6 +303,11 @@ def guard_rule(rep, prog, oks):
         ("DF::ADSB/ME::AircraftOperationStatus/OperationStatus::Surface", "l/w=", [52, 53, 54, 55], set(range(1, 16))),
         ("DF::ADSB/ME::AirborneVelocity/AirborneVelocitySubType::AirspeedDecoding", "baro rate", list(range(69, 78)), set(range(1, 512))),
     ]
+    # operational-mode words of the operational status report: each word appears exactly when its own flag bit is set
+    for kind in ("Airborne", "Surface"):
+        lab = "DF::ADSB/ME::AircraftOperationStatus/OperationStatus::%s" % kind
+        FLAG_LINES += [(lab, " tcas", [58], {1}), (lab, " ident_switch_active", [59], {1}), (lab, " atc", [60], {1}), (lab, " saf", [61], {1}),
+                       (lab, " sda=", [62, 63], {1, 2, 3})]
     n = 0
     for prefix, kw, atoms, when in FLAG_LINES:
         p = reps.get(prefix)
@@ -336,8 +341,13 @@ def guard_rule(rep, prog, oks):
                 for e in o.events:
                     if e["kind"] == "write_fmt":
                         site = find_site(idx, e["span"])
-                        if site and any(isinstance(pc, str) and kw in pc.lower() for pc in site["pieces"]):
+                        # the text written: the literal pieces of the format string and any string arguments
+                        texts = [pc for pc in (site["pieces"] if site else []) if isinstance(pc, str)]
+                        texts += [a[2].get("s") for a in e["args"] if isinstance(a[2], Opaque) and a[2].kind == "str" and isinstance(a[2].get("s"), str)]
+                        if any(kw in t.lower() for t in texts):
                             present = True
+                    elif e["kind"] == "write_str" and isinstance(e.get("s"), str) and kw in e["s"].lower():
+                        present = True
             n += 1
             rep.instance(rid, "%s|%s|%d" % (prefix, kw, val), sample={"frame": prefix, "line": kw, "flag_value": val, "present": present} if n in (1, 9) else None)
             if not outs:
